@@ -44,6 +44,7 @@ type Net struct {
 	LatencyMin time.Duration // base one-way latency of every chunk (default 50µs)
 	LatencyMax time.Duration // extra per-chunk latency is drawn in [0, LatencyMax]
 	LatencyP0  float64       // probability of the minimal latency
+	BufBytes   int           // per-direction buffer (0 = unbounded): Write blocks, subject to its deadline, while that many bytes are unread
 	nodePrefix map[string]string // task-id prefix -> node name
 	addrNode   map[string]string // listen address key -> node name
 	isolated   map[string]bool
@@ -196,6 +197,19 @@ func (n *Net) DialsTo(address string) int {
 	k := 0
 	for _, c := range n.conns {
 		if key(c.remote.s) == key(address) {
+			k++
+		}
+	}
+	return k
+}
+
+// DialsFromTo counts the connections node `from` ever opened to a listen address.
+func (n *Net) DialsFromTo(from, address string) int {
+	n.mu.Lock()
+	defer n.mu.Unlock()
+	k := 0
+	for _, c := range n.conns {
+		if c.node == from && key(c.remote.s) == key(address) {
 			k++
 		}
 	}
@@ -440,6 +454,21 @@ type half struct {
 	rdl    time.Time // read deadline
 	closed bool      // local end closed
 	rst    bool
+	bytes  int     // unread bytes queued
+	wwait  *waiter // a writer blocked on a full buffer
+}
+
+func (h *half) kickWriter() {
+	h.mu.Lock()
+	wt := h.wwait
+	if wt != nil && wt.active {
+		wt.active = false
+		h.wwait = nil
+		h.mu.Unlock()
+		h.n.w.Wake(wt.t)
+		return
+	}
+	h.mu.Unlock()
 }
 
 func (h *half) kick() {
@@ -502,7 +531,9 @@ func (c *conn) Read(p []byte) (int, error) {
 				} else {
 					h.q = h.q[1:]
 				}
+				h.bytes -= k
 				h.mu.Unlock()
+				h.kickWriter()
 				return k, nil
 			}
 			wakeAt = ck.at
@@ -563,6 +594,48 @@ func (c *conn) Write(p []byte) (int, error) {
 		w.Event("net c%d write to closed peer", c.id)
 		return 0, &net.OpError{Op: "write", Net: "tcp", Source: c.local, Addr: c.remote, Err: os.NewSyscallError("write", syscall.EPIPE)}
 	}
+	// bounded buffer: block (kernel-parked) while the peer has too much unread
+	if n.BufBytes > 0 {
+		t := w.SelfTask()
+		for {
+			dst.mu.Lock()
+			full := dst.bytes > 0 && dst.bytes+len(p) > n.BufBytes
+			dclosed := dst.closed || dst.rst
+			if !full || dclosed || t.Dying() {
+				dst.mu.Unlock()
+				break
+			}
+			c.wmu.Lock()
+			wdl := c.wdl
+			c.wmu.Unlock()
+			now := time.Now()
+			if !wdl.IsZero() && !wdl.After(now) {
+				dst.mu.Unlock()
+				n.stat("write_deadline")
+				w.Fault("write_timeout_full_buffer")
+				w.Event("net c%d write deadline (buffer full)", c.id)
+				return 0, &net.OpError{Op: "write", Net: "tcp", Source: c.local, Addr: c.remote, Err: os.ErrDeadlineExceeded}
+			}
+			wt := &waiter{t: t, active: true}
+			dst.wwait = wt
+			var tm *time.Timer
+			if !wdl.IsZero() {
+				tm = time.AfterFunc(wdl.Sub(now), dst.kickWriter)
+			}
+			dst.mu.Unlock()
+			w.Probe("write_blocked_full_buffer")
+			w.Block(t)
+			if tm != nil {
+				tm.Stop()
+			}
+			dst.mu.Lock()
+			wt.active = false
+			if dst.wwait == wt {
+				dst.wwait = nil
+			}
+			dst.mu.Unlock()
+		}
+	}
 	// latency decision
 	var lat time.Duration
 	if n.LatencyMax > 0 {
@@ -596,6 +669,7 @@ func (c *conn) Write(p []byte) (int, error) {
 	}
 	dst.lastAt = at
 	dst.q = append(dst.q, chunk{data: data, at: at, held: held})
+	dst.bytes += len(data)
 	dst.mu.Unlock()
 	dst.kick()
 	return len(p), nil
@@ -610,9 +684,11 @@ func (c *conn) Close() error {
 	}
 	h.closed = true
 	h.q = nil
+	h.bytes = 0
 	h.mu.Unlock()
 	c.n.w.Note("net c%d close by dialer=%v", c.id, c.dialer)
 	h.kick()
+	h.kickWriter()
 	// FIN travels behind the data already written
 	dst := c.peer.in
 	n := c.n
@@ -641,10 +717,12 @@ func (c *conn) reset() bool {
 		if !h.rst && !h.closed {
 			h.rst = true
 			h.q = nil
+			h.bytes = 0
 			did = true
 		}
 		h.mu.Unlock()
 		h.kick()
+		h.kickWriter()
 	}
 	if did {
 		c.n.w.Fault("conn_reset")
